@@ -33,6 +33,17 @@ func main() {
 		getdata(os.Args[2:])
 	case "sync":
 		syncEngine(os.Args[2:])
+	case "netconf":
+		simple(os.Args[2:], func(w *env.World, out *bufio.Writer) func([]byte) error {
+			r := &drive.NCRunner{W: w, Out: out}
+			return func(line []byte) error {
+				var sc drive.NCScript
+				if err := json.Unmarshal(line, &sc); err != nil {
+					return err
+				}
+				return r.Run(&sc)
+			}
+		})
 	default:
 		die(fmt.Errorf("unknown engine %q", os.Args[1]))
 	}
@@ -164,6 +175,46 @@ func syncEngine(args []string) {
 	bw.Flush()
 	of.Close()
 	fmt.Fprintf(realStdout, "scripts=%d\n", r.N)
+}
+
+// simple: read ndjson inputs, run each through f, write the ndjson trace
+func simple(args []string, mk func(w *env.World, out *bufio.Writer) func([]byte) error) {
+	fs := flag.NewFlagSet("engine", flag.ExitOnError)
+	in := fs.String("in", "", "input file (ndjson)")
+	out := fs.String("out", "", "trace file (ndjson)")
+	fs.Parse(args)
+	w, err := env.NewWorld("g0", "")
+	if err != nil {
+		die(err)
+	}
+	defer w.Close()
+	f, err := os.Open(*in)
+	if err != nil {
+		die(err)
+	}
+	defer f.Close()
+	of, err := os.Create(*out)
+	if err != nil {
+		die(err)
+	}
+	bw := bufio.NewWriterSize(of, 1<<20)
+	run := mk(w, bw)
+	sc := bufio.NewScanner(f)
+	sc.Buffer(make([]byte, 1<<20), 1<<26)
+	n := 0
+	for sc.Scan() {
+		if len(sc.Bytes()) == 0 {
+			continue
+		}
+		if err := run(sc.Bytes()); err != nil {
+			bw.Flush()
+			die(err)
+		}
+		n++
+	}
+	bw.Flush()
+	of.Close()
+	fmt.Printf("inputs=%d\n", n)
 }
 
 func txn(args []string) {
